@@ -237,8 +237,14 @@ func TestVerif_C14_readers(t *testing.T) {
 		}
 	}
 	for i, st := range streams {
-		open, out, term := verifc14.Ref(st.alg, st.wire, st.fin)
 		sizes := verifc14.Sizes(r)
+		chunk := 0
+		if r.Intn(2) == 0 {
+			chunk = 1 + r.Intn(40)
+		}
+		// the reference: the library used directly under the SAME schedule (input chunking and
+		// Read sizes) - on corrupted streams a decoder's verdict may depend on it
+		open, out, term := verifc14.RefSched(st.alg, st.wire, st.fin, chunk, sizes)
 		var extra []int
 		for k := r.Intn(4); k > 0; k-- {
 			extra = append(extra, 1+r.Intn(64))
@@ -253,10 +259,7 @@ func TestVerif_C14_readers(t *testing.T) {
 				extra = []int{1 + r.Intn(9)}
 			}
 		}
-		src := &verifc14.Src{Data: append([]byte(nil), st.wire...), Fin: st.fin}
-		if r.Intn(2) == 0 {
-			src.Chunk = 1 + r.Intn(40)
-		}
+		src := &verifc14.Src{Data: append([]byte(nil), st.wire...), Fin: st.fin, Chunk: chunk}
 		var got string
 		var raw []byte
 		id := fmt.Sprintf("%s/%s#%d", st.alg, st.kind, i)
@@ -266,7 +269,19 @@ func TestVerif_C14_readers(t *testing.T) {
 			got, raw = c14RunScript(rd, out, closeAfter, sizes, extra)
 			rd.Close()
 		}); bad {
-			s.Crash(id, human, p, "")
+			class := ""
+			if open == "panic" && st.alg == "br" {
+				// the brotli library itself panics on this stream under this schedule (used directly,
+				// no imroc/req code): third-party defect, reachable through BrotliReader
+				class = "br-library-panic"
+				human += " wire=" + verifh.Hex(string(st.wire)) + fmt.Sprintf(" chunk=%d", chunk)
+			}
+			s.Crash(id, human, p, class)
+			count("panic")
+			continue
+		}
+		if open == "panic" {
+			s.Observe(id, false, "", true, human+" :: the reference library panicked but the reader under test did not", got)
 			continue
 		}
 		// property oracle (independent of the model): parse `got`
@@ -279,10 +294,9 @@ func TestVerif_C14_readers(t *testing.T) {
 				ok = gotData == verifh.Hex(string(st.payload)) && gotTerm == "eof"
 			case "trunc":
 				// a strict, non-empty prefix of a single-member stream: never a clean end
-				ok = strings.HasPrefix(gotTerm, "err")
-				if !bytes.HasPrefix(st.payload, raw) {
-					ok = false // garbage before the error
-				}
+				// admissible: a read error after a prefix of the payload, or exactly the payload
+				ok = strings.HasPrefix(gotTerm, "err") && bytes.HasPrefix(st.payload, raw) ||
+					gotTerm == "eof" && bytes.Equal(raw, st.payload)
 			case "srcerr":
 				ok = strings.HasPrefix(gotTerm, "err")
 			case "zlib":
@@ -363,4 +377,150 @@ func c14Short(s string) string {
 		return s[:120] + "…"
 	}
 	return s
+}
+
+// TestVerif_C14_overlap: several lazy readers open at the same time (as on a multiplexed
+// HTTP/2 or HTTP/3 connection), driven by one generated operation sequence: open a reader over
+// a fresh stream, Read n bytes from one of the open readers, Close one (possibly a second and
+// third time, possibly before the first Read or mid-stream). Each reader must deliver exactly
+// ITS payload (a prefix of it at every moment, all of it at EOF) whatever the others do -
+// nothing shared between responses may leak through the wrappers (pools, sticky fields).
+func TestVerif_C14_overlap(t *testing.T) {
+	s := verifh.New(t, "C14", "overlap",
+		"operation sequences over up to 4 simultaneously open lazy readers (all four codecs mixed; payloads tiny..>64KiB, all distinct): open / read n (n from 1..65536) / close (repeated closes, closes before the first read and mid-stream) / drain; oracle per reader: every byte delivered is the next byte of ITS OWN payload, EOF only after the whole payload, no data after Close for gzip (fs.ErrClosed); non-trivial = a sequence in which at least two readers were open together")
+	r := s.Rand()
+	hist := map[string]int{}
+	count := func(k string) { s.Count(k); hist[k]++ }
+	type open struct {
+		alg     string
+		payload []byte
+		rd      CompressReader
+		got     int // bytes delivered so far
+		closed  int
+		done    bool
+	}
+	n := verifh.N(150, 6000)
+	for sc := 0; sc < n; sc++ {
+		var live []*open
+		maxLive, doubleClose, bad := 0, false, ""
+		var trace []string
+		ops := 20 + r.Intn(120)
+		step := func(o *open, size int) {
+			buf := make([]byte, size)
+			k, err := o.rd.Read(buf)
+			if o.closed > 0 {
+				if k != 0 || err == nil {
+					if o.alg == "gzip" && bad == "" {
+						bad = fmt.Sprintf("%s reader #%d: Read after Close returned %d bytes, err=%v", o.alg, o.got, k, err)
+					}
+				}
+				return
+			}
+			if k > 0 {
+				if o.got+k > len(o.payload) || !bytes.Equal(buf[:k], o.payload[o.got:o.got+k]) {
+					if bad == "" {
+						bad = fmt.Sprintf("%s reader (payload %dB): bytes %d..%d are not its own payload's", o.alg, len(o.payload), o.got, o.got+k)
+					}
+				}
+				o.got += k
+			}
+			if err != nil {
+				o.done = true
+				if (err != io.EOF || o.got != len(o.payload)) && bad == "" {
+					bad = fmt.Sprintf("%s reader (payload %dB): ended after %d bytes with %v", o.alg, len(o.payload), o.got, err)
+				}
+			}
+		}
+		ptext, panicked := verifh.Safely(func() {
+			for i := 0; i < ops && bad == ""; i++ {
+				switch k := r.Intn(10); {
+				case len(live) == 0 || (k < 2 && len(live) < 4):
+					alg := verifh.Pick(r, verifc14.Algs)
+					if r.Intn(2) == 0 {
+						alg = "gzip"
+					}
+					pc := 1 + r.Intn(3)
+					if r.Intn(15) == 0 {
+						pc = 4
+					}
+					p := verifc14.Payload(r, pc)
+					src := &verifc14.Src{Data: verifc14.Compress(alg, p), Fin: io.EOF}
+					if r.Intn(2) == 0 {
+						src.Chunk = 1 + r.Intn(64)
+					}
+					live = append(live, &open{alg: alg, payload: p, rd: NewCompressReader(src, alg)})
+					trace = append(trace, fmt.Sprintf("open#%d(%s,%dB)", len(live)-1, alg, len(p)))
+				case k < 8:
+					j := r.Intn(len(live))
+					o := live[j]
+					if o.done && o.closed == 0 {
+						break
+					}
+					size := verifh.Pick(r, []int{1, 2, 7, 16, 100, 512, 4096, 65536})
+					step(o, size)
+					trace = append(trace, fmt.Sprintf("read#%d(%d)", j, size))
+				default:
+					j := r.Intn(len(live))
+					o := live[j]
+					o.rd.Close()
+					o.closed++
+					if o.closed > 1 {
+						doubleClose = true
+					}
+					trace = append(trace, fmt.Sprintf("close#%d", j))
+					if r.Intn(3) == 0 { // typical: explicit Close + deferred Close
+						o.rd.Close()
+						o.closed++
+						doubleClose = true
+						trace = append(trace, fmt.Sprintf("close#%d", j))
+					}
+					if r.Intn(2) == 0 {
+						live = append(live[:j], live[j+1:]...)
+					}
+				}
+				if len(live) > maxLive {
+					maxLive = len(live)
+				}
+			}
+			// drain what is still open, alternately
+			for progress := true; progress && bad == ""; {
+				progress = false
+				for _, o := range live {
+					if !o.done && o.closed == 0 {
+						step(o, verifh.Pick(r, []int{3, 64, 1000, 65536}))
+						progress = true
+					}
+				}
+			}
+			for _, o := range live {
+				o.rd.Close()
+			}
+		})
+		id := fmt.Sprintf("overlap#%d", sc)
+		tr := strings.Join(trace, " ")
+		if len(tr) > 600 {
+			tr = tr[:600] + "…"
+		}
+		if panicked {
+			s.Crash(id, tr, ptext, "")
+			continue
+		}
+		if maxLive >= 2 {
+			count("overlapping")
+		}
+		if doubleClose {
+			count("double-close")
+		}
+		human := tr
+		if bad != "" {
+			human = bad + " :: " + tr
+		}
+		s.Observe(id, bad == "", "", maxLive >= 2, human, bad)
+	}
+	for _, k := range []string{"overlapping", "double-close"} {
+		if hist[k] == 0 {
+			t.Errorf("bucket %s not reached", k)
+		}
+	}
+	s.Finish()
 }
